@@ -1,7 +1,7 @@
 //! C04 Finishing or dropping a bar always paints its final state.
 use std::time::Duration;
 
-use indicatif::{ProgressBar, ProgressDrawTarget, ProgressIterator};
+use indicatif::{ProgressBar, ProgressDrawTarget, ProgressFinish, ProgressIterator};
 use proptest::prelude::*;
 use serde::{Deserialize, Serialize};
 
@@ -272,7 +272,8 @@ fn run_single(c: &SingleCase) -> CaseResult {
         let h = handle.as_ref().unwrap();
         ensure!(h.is_finished(), "not_finished", "{ctx}: is_finished() is false afterwards");
         ensure!(h.position() == fin.pos, "final_position", "{ctx}: position() = {}, expected {}", h.position(), fin.pos);
-        ensure!(h.message() == fin.msg, "final_message", "{ctx}: message() = {:?}, expected {:?}", h.message(), fin.msg);
+        let want_msg = crate::model::expand_tabs(&fin.msg, fin.tab_width);
+        ensure!(h.message() == want_msg, "final_message", "{ctx}: message() = {:?}, expected {:?}", h.message(), want_msg);
         ensure!(vt.nflush() > flush_before, "no_final_frame", "{ctx}: no frame was painted by the call");
         c01::check_screen(&vt.rows(), None, &log, &fin.frame(), cols, &ctx).map_err(|f| Fail::new("final_frame", f.msg))?;
         if let Some(again) = &c.again {
@@ -312,7 +313,8 @@ fn run_single(c: &SingleCase) -> CaseResult {
                 } else {
                     ensure!(probe.is_finished(), "not_finished", "{ctx2}: is_finished() is false");
                     ensure!(probe.position() == st2.pos, "final_position", "{ctx2}: position() = {}, expected {}", probe.position(), st2.pos);
-                    ensure!(probe.message() == st2.msg, "final_message", "{ctx2}: message() = {:?}, expected {:?}", probe.message(), st2.msg);
+                    let want_msg = crate::model::expand_tabs(&st2.msg, st2.tab_width);
+                    ensure!(probe.message() == want_msg, "final_message", "{ctx2}: message() = {:?}, expected {:?}", probe.message(), want_msg);
                     drop(probe);
                     drop(pb);
                 }
@@ -388,6 +390,133 @@ fn single_strategy(tier: Tier) -> BoxedStrategy<SingleCase> {
             )
         })
         .prop_map(|(rows, cols, len, tpl, hz, burn, prior, step_ms, term, (again, prior_finish))| SingleCase { touch_after: (rows ^ cols ^ burn) % 5, rows, cols, len, tpl, hz, burn, prior, step_ms, term, again, prior_finish })
+        .boxed()
+}
+
+// ------------------------------------------------------------------------------------------
+// the supplied message and stream-driven completion
+
+#[derive(Debug, Clone, Serialize, Deserialize)]
+pub struct SuppliedCase {
+    /// set_tab_width(w): before (false) or after (true) the first message is set
+    tab_width: Option<(u8, bool)>,
+    initial: String,
+    supplied: String,
+    /// 0 finish_with_message, 1 abandon_with_message, 2 with_finish(WithMessage) + finish_using_style,
+    /// 3 with_finish(AbandonWithMessage) + drop of the last handle, 4 with_finish(WithMessage) + iterator
+    /// exhaustion, 5 with_finish(WithMessage) + a stream polled to its end
+    how: u8,
+    len: u8,
+    /// how 4/5: the items; how 5: None = the stream is not ready at that poll
+    script: Vec<Option<u8>>,
+}
+
+fn run_supplied(c: &SuppliedCase) -> CaseResult {
+    use std::task::{Context, Poll, Waker};
+    let _clk = clock::Armed::new();
+    let vt = VTerm::raw(20, 400);
+    let mut pb = ProgressBar::with_draw_target(Some(c.len as u64), ProgressDrawTarget::term_like(vt.boxed()));
+    pb.set_style(indicatif::ProgressStyle::with_template("{msg}|{pos}/{len}").unwrap());
+    let mut tw = 8usize;
+    if let Some((w, false)) = c.tab_width {
+        pb.set_tab_width(w as usize);
+        tw = w as usize;
+    }
+    pb.set_message(c.initial.clone());
+    if let Some((w, true)) = c.tab_width {
+        pb.set_tab_width(w as usize);
+        tw = w as usize;
+    }
+    let how = c.how % 6;
+    let want_msg = crate::model::expand_tabs(&c.supplied, tw);
+    let items: Vec<u8> = c.script.iter().flatten().copied().collect();
+    let mut v = Verdict::default();
+    let ctx = format!("tab width {:?}, first message {:?}, supplied message {:?}, way {how}, length {}, script {:?}", c.tab_width, c.initial, c.supplied, c.len, c.script);
+    let mut want_pos = c.len as u64;
+    let probe = pb.clone();
+    catch(|| -> Result<(), Fail> {
+        match how {
+            0 => pb.finish_with_message(c.supplied.clone()),
+            1 => {
+                pb.set_position(1);
+                want_pos = 1;
+                pb.abandon_with_message(c.supplied.clone())
+            }
+            2 => {
+                pb = pb.clone().with_finish(ProgressFinish::WithMessage(c.supplied.clone().into()));
+                pb.finish_using_style()
+            }
+            3 => {
+                pb.set_position(1);
+                want_pos = 1;
+                pb = pb.clone().with_finish(ProgressFinish::AbandonWithMessage(c.supplied.clone().into()));
+            }
+            4 => {
+                pb = pb.clone().with_finish(ProgressFinish::WithMessage(c.supplied.clone().into()));
+                let got: Vec<u8> = pb.wrap_iter(items.clone().into_iter()).collect();
+                assert_eq!(got, items);
+            }
+            _ => {
+                pb = pb.clone().with_finish(ProgressFinish::WithMessage(c.supplied.clone().into()));
+                let mut cx = Context::from_waker(Waker::noop());
+                let mut ws = pb.wrap_stream(super::c17::ScriptStream(c.script.iter().map(|x| x.map(Some)).collect()));
+                let mut seen = 0u64;
+                let mut polls = 0;
+                loop {
+                    polls += 1;
+                    let r = futures_core::Stream::poll_next(std::pin::Pin::new(&mut ws), &mut cx);
+                    match r {
+                        Poll::Ready(Some(_)) => seen += 1,
+                        Poll::Ready(None) => break,
+                        Poll::Pending => {}
+                    }
+                    // completion is driven by the end of the stream and by nothing else
+                    ensure!(!probe.is_finished(), "finished_early", "{ctx}: is_finished() is true after poll #{polls} ({r:?}) although the stream has not ended");
+                    ensure!(probe.position() == seen, "final_position", "{ctx}: position() = {} after {seen} items (poll #{polls}, {r:?})", probe.position());
+                    ensure!(polls < 1000, "harness", "the scripted stream does not end");
+                }
+            }
+        }
+        Ok(())
+    })
+    .map_err(|p| Fail::new("panic", format!("{ctx}: panicked: {p}")))??;
+    if how == 3 {
+        drop(pb);
+    }
+    // (probe is still a handle of the bar when how == 3: drop it to trigger the drop behaviour, then look at the frame only)
+    if how != 3 {
+        ensure!(probe.is_finished(), "not_finished", "{ctx}: is_finished() is false afterwards");
+        ensure!(probe.position() == want_pos, "final_position", "{ctx}: position() = {}, expected {want_pos}", probe.position());
+        ensure!(probe.message() == want_msg, "final_message", "{ctx}: message() = {:?}, expected the supplied message {want_msg:?}", probe.message());
+    }
+    drop(probe);
+    let lines = vt.last_frame_lines().map_err(|e| Fail::new("harness", e))?;
+    let want_line = format!("{want_msg}|{want_pos}/{}", c.len);
+    // (trailing blanks are not distinguishable from the right-edge filler)
+    ensure!(
+        lines.len() == 1 && lines[0].trim_end() == want_line.trim_end() && lines[0].starts_with(&want_msg),
+        "final_frame",
+        "{ctx}: the last frame is {lines:?}, expected [{want_line:?}]"
+    );
+    v.nontrivial = c.supplied.contains('\t') && tw != 8;
+    v.label_if(v.nontrivial, "supplied_message_with_tab_at_non_default_width");
+    v.label_if(!c.initial.contains('\t'), "first_message_without_tab");
+    v.label_if(how == 5 && c.script.iter().any(|x| x.is_none()), "stream_not_ready_in_between");
+    v.label(["finish_with_message", "abandon_with_message", "finish_using_style", "drop_last_handle", "iterator_exhausted", "stream_ended"][how as usize]);
+    Ok(v)
+}
+
+fn supplied_strategy(_t: Tier) -> BoxedStrategy<SuppliedCase> {
+    let text = || proptest::collection::vec(prop_oneof![3 => "[a-z]{1,3}", 1 => Just("\t".to_string()), 1 => Just(" ".to_string())], 0..5).prop_map(|v| v.concat());
+    (
+        proptest::option::weighted(0.7, (prop_oneof![4 => 0u8..8, 1 => Just(8u8), 3 => 9u8..20], any::<bool>())),
+        prop_oneof![2 => "[a-z ]{0,5}", 1 => text()],
+        text(),
+        0u8..6,
+        0u8..9,
+        proptest::collection::vec(proptest::option::weighted(0.7, any::<u8>()), 0..8),
+    )
+        .prop_map(|(tab_width, initial, supplied, how, len, script)| SuppliedCase { tab_width, initial, supplied, how, len, script })
         .boxed()
 }
 
@@ -517,6 +646,17 @@ pub fn property() -> Property {
                 run: run_single,
                 signature: no_signature,
                 essential: &["limiter_exhausted_at_terminator", "limiter_not_exhausted", "explicit_call", "finish_using_style", "drop_last_handle", "iterator_exhausted", "iterator_exhausted_from_the_back", "iterator_exhausted_by_internal_iteration", "terminator_on_already_finished_bar", "clock_reset_after_finish", "clearing_variant", "second_completion_after_reset"],
+                workers: w,
+                decode: None,
+            }),
+            Box::new(Gen::<SuppliedCase> {
+                name: "supplied",
+                rule: "a bar with tab width 0..19 set before or after its first message (with or without a TAB), completed with a supplied message of 0-4 pieces incl. TABs through finish_with_message/abandon_with_message/with_finish + finish_using_style/with_finish + drop of the last handle/with_finish + iterator exhaustion/with_finish + a futures Stream that is polled to its end and is not ready at generated polls: message() and the last painted frame show exactly the supplied message (TABs expanded at the bar's width), position is the length (finish) or stays (abandon), and while the stream has not ended the bar is unfinished and counts the items; non-trivial = a supplied message with a TAB at a width other than 8",
+                strategy: supplied_strategy,
+                cases: |t| t.pick(12_000, 600_000),
+                run: run_supplied,
+                signature: no_signature,
+                essential: &["supplied_message_with_tab_at_non_default_width", "first_message_without_tab", "stream_not_ready_in_between", "finish_with_message", "abandon_with_message", "finish_using_style", "drop_last_handle", "iterator_exhausted", "stream_ended"],
                 workers: w,
                 decode: None,
             }),
